@@ -37,7 +37,9 @@ var corePark = []string{
 }
 var coreNote = []string{"serve.iter"}
 
-var watchdog = 2 * time.Second
+// generous: a stall is inferred only from the absence of an arrival, and the
+// machine may be heavily loaded; passing runs never wait for it
+var watchdog = 10 * time.Second
 
 type reqCfg struct {
 	Entry    string `json:"entry"`
